@@ -64,6 +64,7 @@ type tk struct {
 	decl  bool   // first token of a declaration/statement
 	empty bool   // the ';' of an empty statement
 	in    int    // indentation level (canonical)
+	lit   bool   // token inside a message literal
 	tag   string // "compact-eq": '=' of a compact option, "lit-sep": separator inside a message literal
 }
 
@@ -119,6 +120,8 @@ type fgen struct {
 	enums    []string // fully-qualified enum names
 	imported map[string]bool
 
+	litDepth   int
+	litFocus   bool // literal-heavy file: several message-literal options with nested literals
 	usedKw     map[string]bool
 	forceNums  []int
 	extendable []extTarget
@@ -147,7 +150,7 @@ func (g *fgen) pick(label string, xs ...string) string { return xs[g.intn(label,
 // ---- token emission --------------------------------------------------------------------------
 
 func (g *fgen) emit(s string, k tkKind) *tk {
-	g.toks = append(g.toks, tk{s: s, k: k, in: g.ind})
+	g.toks = append(g.toks, tk{s: s, k: k, in: g.ind, lit: g.litDepth > 0})
 	return &g.toks[len(g.toks)-1]
 }
 func (g *fgen) w(s string) *tk { return g.emit(s, kWord) }
@@ -474,19 +477,40 @@ var cfgFields = []cfgField{
 	{"f", "float", false}, {"rd", "double", true}, {"u64", "uint64", false},
 }
 
+// litSep emits an optional separator of a message literal, tagged by the kind of value in front of it:
+// "lit-sep-c" after a composite scalar (-1, -inf, "a" "b"), "lit-sep" otherwise.
+func (g *fgen) litSep(s string) {
+	tag := "lit-sep"
+	if n := len(g.toks); n >= 2 {
+		last, before := g.toks[n-1], g.toks[n-2]
+		if before.s == "-" || (last.k == kStr && before.k == kStr) {
+			tag = "lit-sep-c"
+		}
+	}
+	g.p(s).tag = tag
+}
+
 // msgLiteral emits a message literal for a Cfg value.
 func (g *fgen) msgLiteral(depth int) {
+	g.litDepth++
+	defer func() { g.litDepth-- }()
 	g.facts.MsgLiterals++
 	op, cl := "{", "}"
-	if depth > 0 && g.pct("angle", 30) {
+	if depth > 0 && g.pct("angle", 40) {
 		op, cl = "<", ">"
 		g.facts.AngleLiterals++
 	}
 	g.open(op)
 	n := g.intn("litfields", 0, 4)
+	if g.litFocus && depth < 2 && n < 2 {
+		n = 2
+	}
 	used := map[string]bool{}
 	for i := 0; i < n; i++ {
 		f := cfgFields[g.intn("litfield", 0, len(cfgFields)-1)]
+		if g.litFocus && depth < 2 && g.pct("nestmore", 40) {
+			f = cfgFields[g.pick2("nestwhich", 6, 7)] // sub / subs
+		}
 		if f.typ == "Cfg" && depth >= 2 {
 			f = cfgFields[0]
 		}
@@ -544,9 +568,9 @@ func (g *fgen) msgLiteral(depth int) {
 		}
 		switch g.intn("sep", 0, 3) {
 		case 0:
-			g.p(",").tag = "lit-sep"
+			g.litSep(",")
 		case 1:
-			g.p(";").tag = "lit-sep"
+			g.litSep(";")
 		}
 	}
 	g.close(cl)
@@ -584,9 +608,11 @@ func (g *fgen) wildOptionBody() {
 
 // wildLiteral emits a free-form message literal (no schema).
 func (g *fgen) wildLiteral(depth int) {
+	g.litDepth++
+	defer func() { g.litDepth-- }()
 	g.facts.MsgLiterals++
 	op, cl := "{", "}"
-	if depth > 0 && g.pct("angle", 35) {
+	if depth > 0 && g.pct("angle", 40) {
 		op, cl = "<", ">"
 		g.facts.AngleLiterals++
 	}
@@ -667,9 +693,9 @@ func (g *fgen) wildLiteral(depth int) {
 		}
 		switch g.intn("sep", 0, 3) {
 		case 0:
-			g.p(",").tag = "lit-sep"
+			g.litSep(",")
 		case 1:
-			g.p(";").tag = "lit-sep"
+			g.litSep(";")
 		}
 	}
 	g.close(cl)
@@ -1465,6 +1491,10 @@ func genFile(t *rapid.T) (string, Facts) {
 	g.facts.Syntax = g.syntax
 	g.wild = g.pct("wild", 25)
 	g.custom = g.pct("custom", 45)
+	g.litFocus = g.pct("litfocus", 15)
+	if g.litFocus {
+		g.custom = true
+	}
 	g.allowEmptyCmt = g.pct("emptycmt", 10)
 	g.crlf = g.pct("crlf", 5)
 	// trigger shapes of open findings are generated in a small share of the files (the rest is counted
@@ -1546,6 +1576,16 @@ func genFile(t *rapid.T) (string, Facts) {
 		nOpt = g.intn("nopt", 5, 12)
 	default:
 		nOpt = g.intn("nopt", 13, 22)
+	}
+	if g.litFocus {
+		for i, k := 0, g.intn("litopts", 2, 4); i < k; i++ {
+			header = append(header, func() {
+				g.facts.FileOptions++
+				g.start("option")
+				g.customOptionNamed("f", custOpts[7]) // repeated Cfg: any number of message literals
+				g.end()
+			})
+		}
 	}
 	usedFileOpts := map[string]bool{}
 	for i := 0; i < nOpt; i++ {
@@ -1843,7 +1883,11 @@ func (g *fgen) canonical(prev, cur *tk) string {
 // gap draws the text between prev and cur (either may be nil: start / end of file).
 func (g *fgen) gap(prev, cur *tk) string {
 	nextToEmpty := (prev != nil && prev.empty) || (cur != nil && cur.empty)
-	if !g.pct("gapnoise", g.noisy) {
+	rate := g.noisy
+	if rate < 35 && ((prev != nil && prev.lit) || (cur != nil && cur.lit)) {
+		rate = 35 // option values are where most of the formatter's comment shuffling happens
+	}
+	if !g.pct("gapnoise", rate) {
 		return g.canonical(prev, cur)
 	}
 	if prev == nil && off("leading-blank") {
@@ -1855,7 +1899,9 @@ func (g *fgen) gap(prev, cur *tk) string {
 		}
 		return " "
 	}
-	if !g.sepCmtOK && ((cur != nil && cur.tag == "lit-sep") || (prev != nil && prev.tag == "lit-sep")) {
+	// known triggers only: any comment in front of a separator, and a comment behind a separator that follows
+	// a composite scalar value (-1, "a" "b"); behind a separator after a plain value or a literal comments are free
+	if !g.sepCmtOK && ((cur != nil && strings.HasPrefix(cur.tag, "lit-sep")) || (prev != nil && prev.tag == "lit-sep-c")) {
 		if g.intn("gapkindpeek", 0, 11) >= 4 {
 			excluded("comment-lost:message-literal-separator")
 		}
